@@ -24,6 +24,8 @@ SPECS = {
     # bit-level rules; requests may hand in a TREE instead of a word (what the search does with generator results):
     # trees of 4 and of 8 bit leaves can serialise to the same byte
     "bits": ('<start> ::= <b>{4} | <b>{8}\n<b> ::= 0 | 1\n', [b"\x05", b"\x50", b"\x05\x05"], "<b>"),
+    # bytes regexes; the same word is requested as bytes and as str
+    "bytes_regex": ('<start> ::= <k> <v>\n<k> ::= rb"[a-c]+"\n<v> ::= b"=" rb"[0-9]"\n', [b"ab=1", "ab=1", b"a=", "c=2"], "<k>"),
     "unambiguous": ('<start> ::= <k> ("," <k>)*\n<k> ::= r"[ab]+"\nwhere len(str(<start>)) < 4\n', ["a,b", "ab", "a,b,a", "a,"], "<k>"),
 }
 
@@ -39,7 +41,7 @@ def canon_tags(t, ren):
     s = t.symbol
     from mc.fd import leaf_value
     head = ("T", leaf_value(s)) if s.is_terminal else ("N", s.name())
-    return head + (t.sender, t.recipient, tuple(tags), tuple(canon_tags(c, ren) for c in t._children))
+    return head + (t.sender, t.recipient, bool(t.read_only), tuple(tags), tuple(canon_tags(c, ren) for c in t._children))
 
 
 def observe(trees):
@@ -54,7 +56,7 @@ def ops_for(name):
         ops += [("parse", w), ("forest", w), ("abandon1", w), ("ctrlflow", w), ("prefix", w), ("api", w),
                 ("prefix_first", w), ("prefix_abandon1", w), ("api_prefix_first", w)]
     ops += [("inner_forest", ws[1] if name != "generator" else "cc"), ("inner_parse", ws[1] if name != "generator" else "cc")]
-    ops += [("mutate_last", None)]
+    ops += [("mutate_last", None), ("mutate_leaf", None)]
     if name == "generator":
         ops += [("fuzz", None)]
     if name == "bits":
@@ -126,6 +128,16 @@ def apply(spec, name, op, held):
                 t.set_children(t.children[:1])
             t.symbol = NonTerminal("<mutated>")
             return ("mutated",)
+        elif kind == "mutate_leaf":
+            if not held:
+                return None
+            # change a LEAF of the tree that was handed out last
+            from fandango.language.symbols import Terminal
+            node = held[-1]
+            while node._children:
+                node = node._children[0]
+            node.symbol = Terminal("X")
+            return ("mutated_leaf",)
         elif kind == "fuzz":
             random.seed(7)
             t = g.fuzz()
@@ -184,11 +196,11 @@ def step(task):
     held: list = []
     for op in hist:
         apply(spec, name, op, held)
-    if ev[0] == "mutate_last" and not held:
+    if ev[0] in ("mutate_last", "mutate_leaf") and not held:
         return (None, None, False)
     obs = apply(spec, name, ev, held)
     viol = None
-    if ev[0] not in ("mutate_last",):
+    if ev[0] not in ("mutate_last", "mutate_leaf"):
         want = fresh_obs(name, ev)
         if obs != want:
             viol = {"kind": "history_dependent_result", "spec": name, "history": [list(o) for o in hist], "request": list(ev),
